@@ -126,10 +126,6 @@ func intOps(c *mc.Ctx) {
 		}
 	}
 	c.Rep.Extra["int128_alphabet"] = len(x128)
-	ehh, ell := lattice.VerifEllLowerHalf()
-	if i128(ehh, ell).Cmp(new(big.Int).Mod(ref.L, two128)) != 0 {
-		c.Broken("hook: constELL_LOWER_HALF is not L mod 2^128") // reported through C20 as a violation; here it only guards the harness
-	}
 	n1 := len(x128)
 	c.Par("int128", n1*n1, func(w *mc.W, i int) {
 		x, y := x128[i/n1], x128[i%n1]
@@ -279,6 +275,10 @@ func intOps(c *mc.Ctx) {
 		e := lattice.VerifEllSquared()
 		if got, want := fromLimbs(e[:], true), new(big.Int).Mul(ref.L, ref.L); got.Cmp(want) != 0 {
 			w.Fail("lattice.ellSquared", fmt.Sprintf("ellSquared() = 0x%x want 0x%x", got, want), nil)
+		}
+		ehh, ell := lattice.VerifEllLowerHalf()
+		if got, want := new(big.Int).Mod(i128(ehh, ell), two128), new(big.Int).Mod(ref.L, two128); got.Cmp(want) != 0 {
+			w.Fail("lattice.constELL_LOWER_HALF", fmt.Sprintf("constELL_LOWER_HALF = 0x%x want L mod 2^128 = 0x%x", got, want), nil)
 		}
 		w.Eval("int512/constants", true)
 	})
